@@ -172,3 +172,155 @@ package impl
 //@   ensures ints && intOf(ev[0]) == 2 && !inInt32(intOf(input[0]) * intOf(input[0])) ==> err == nil && len(res) == 0
 //@   ensures ints && intOf(ev[0]) == 3 && !inInt32(intOf(input[0]) * intOf(input[0]) * intOf(input[0])) ==> err == nil && len(res) == 0
 //@   assigns nothing
+//
+// ---- C10: positional subsetting ---------------------------------------------------------
+//@ func First(ctx, input, args) (res, err)
+//@   ensures err == nil
+//@   ensures len(input) == 0 ==> len(res) == 0
+//@   ensures len(input) > 0 ==> len(res) == 1 && res[0] == input[0]
+//@   assigns nothing
+//
+//@ func Last(ctx, input, args) (res, err)
+//@   ensures err == nil
+//@   ensures len(input) == 0 ==> len(res) == 0
+//@   ensures len(input) > 0 ==> len(res) == 1 && res[0] == input[len(input) - 1]
+//@   assigns nothing
+//
+// tail() == skip(1)
+//@ func Tail(ctx, input, args) (res, err)
+//@   ensures err == nil
+//@   ensures len(res) == len(input) - clampN(1, len(input))
+//@   ensures forall k int :: 0 <= k && k < len(res) ==> res[k] == input[k + 1]
+//@   assigns nothing
+//
+// skip(n) drops the first clampN(n) items; take(n) keeps them: together they partition c
+//@ func Skip(ctx, input, args) (res, err)
+//@   requires ctx != nil && len(input) <= 2147483647
+//@   requires forall k int :: 0 <= k && k < len(args) ==> args[k] != nil
+//@   let K = ctx.ExternalConstants
+//@   let N = ctx.Now
+//@   let ev = evalRes(args[0], K, N, input)
+//@   let everr = evalErr(args[0], K, N, input)
+//@   let n = intOf(ev[0])
+//@   let ok = len(args) == 1 && everr == nil && len(ev) == 1 && isInteger(ev[0])
+//@   ensures len(input) == 0 ==> err == nil && len(res) == 0
+//@   ensures len(input) > 0 && len(args) != 1 ==> is(err, ErrWrongArity)
+//@   ensures len(input) > 0 && len(args) == 1 && (everr != nil || len(ev) != 1) ==> err != nil
+//@   ensures len(input) > 0 && ok ==> err == nil && len(res) == len(input) - clampN(n, len(input))
+//@   ensures len(input) > 0 && ok ==> forall k int :: 0 <= k && k < len(res) ==> res[k] == input[k + clampN(n, len(input))]
+//@   assigns nothing
+//
+//@ func Take(ctx, input, args) (res, err)
+//@   requires ctx != nil && len(input) <= 2147483647
+//@   requires forall k int :: 0 <= k && k < len(args) ==> args[k] != nil
+//@   let K = ctx.ExternalConstants
+//@   let N = ctx.Now
+//@   let ev = evalRes(args[0], K, N, input)
+//@   let everr = evalErr(args[0], K, N, input)
+//@   let n = intOf(ev[0])
+//@   let ok = len(args) == 1 && everr == nil && len(ev) == 1 && isInteger(ev[0])
+//@   ensures len(input) == 0 ==> err == nil && len(res) == 0
+//@   ensures len(input) > 0 && len(args) != 1 ==> is(err, ErrWrongArity)
+//@   ensures len(input) > 0 && len(args) == 1 && (everr != nil || len(ev) != 1) ==> err != nil
+//@   ensures len(input) > 0 && ok ==> err == nil && len(res) == clampN(n, len(input))
+//@   ensures len(input) > 0 && ok ==> forall k int :: 0 <= k && k < len(res) ==> res[k] == input[k]
+//@   assigns nothing
+//
+//@ func Count(ctx, input, args) (res, err)
+//@   requires len(input) <= 2147483647
+//@   ensures err == nil && len(res) == 1 && res[0] == mkInt(len(input))
+//@   assigns nothing
+//
+// empty() == (count() = 0)
+//@ func Empty(ctx, input, args) (res, err)
+//@   ensures len(args) == 0 ==> err == nil && collTV(res) == ite(len(input) == 0, TV_T, TV_F)
+//@   ensures len(args) != 0 ==> is(err, ErrWrongArity)
+//@   assigns nothing
+//
+// select(e): the in-order concatenation of e over the items. (An item on which e fails with
+// ErrInvalidField contributes nothing, unless every item fails that way.)
+//@ func Select(ctx, input, args) (res, err)
+//@   requires ctx != nil
+//@   requires forall k int :: 0 <= k && k < len(args) ==> args[k] != nil
+//@   let K = ctx.ExternalConstants
+//@   let N = ctx.Now
+//@   let e = args[0]
+//@   ensures len(args) != 1 ==> is(err, ErrWrongArity)
+//@   ensures len(args) == 1 && (forall k int :: 0 <= k && k < len(input) ==> selErr(e, K, N, input[k]) == nil) ==> err == nil
+//@   ensures len(args) == 1 && err == nil ==> len(res) == concatLen(e, K, N, input, len(input))
+//@   ensures len(args) == 1 && err == nil ==> forall k int, j int :: 0 <= k && k < len(input) && 0 <= j && j < selLen(e, K, N, input[k]) ==> res[concatLen(e, K, N, input, k) + j] == selOut(e, K, N, input[k])[j]
+//@   loop 1 (i):
+//@     invariant 0 <= i && i <= len(input) && own(result)
+//@     invariant len(result) == concatLen(e, K, N, input, i)
+//@     invariant len(fieldErrs) == fieldErrCount(e, K, N, input, i) && len(fieldErrs) <= i
+//@     invariant (forall k int :: 0 <= k && k < i ==> selErr(e, K, N, input[k]) == nil) ==> len(fieldErrs) == 0
+//@     invariant forall k int :: 0 <= k && k < len(fieldErrs) ==> fieldErrs[k] != nil
+//@     invariant forall k int :: 0 <= k && k < i && selErr(e, K, N, input[k]) != nil ==> is(selErr(e, K, N, input[k]), expr.ErrInvalidField)
+//@     invariant forall k int, j int :: 0 <= k && k < i && 0 <= j && j < selLen(e, K, N, input[k]) ==> concatLen(e, K, N, input, k) + j < len(result) && result[concatLen(e, K, N, input, k) + j] == selOut(e, K, N, input[k])[j]
+//@   assigns nothing
+//
+// distinct(): an order-preserving sub-collection with no two equal items in which every
+// input item has a representative
+//@ func Distinct(ctx, input, args) (res, err)
+//@   ensures len(args) != 0 ==> is(err, ErrWrongArity)
+//@   ensures len(args) == 0 ==> err == nil
+//@   ensures err == nil ==> len(res) <= len(input)
+//@   ensures err == nil ==> forall a int :: 0 <= a && a < len(res) ==> (exists k int :: 0 <= k && k < len(input) && res[a] == input[k])
+//@   ensures err == nil ==> forall a int, b int :: 0 <= a && a < b && b < len(res) ==> !eqItem(res[a], res[b])
+//@   ensures err == nil ==> forall k int :: 0 <= k && k < len(input) ==> (exists a int :: 0 <= a && a < len(res) && (res[a] == input[k] || eqItem(res[a], input[k])))
+//@   loop 1 (i):
+//@     invariant 0 <= i && i <= len(input) && own(result) && len(result) <= i
+//@     invariant forall a int :: 0 <= a && a < len(result) ==> (exists k int :: 0 <= k && k < i && result[a] == input[k])
+//@     invariant forall a int, b int :: 0 <= a && a < b && b < len(result) ==> !eqItem(result[a], result[b])
+//@     invariant forall k int :: 0 <= k && k < i ==> (exists a int :: 0 <= a && a < len(result) && (result[a] == input[k] || eqItem(result[a], input[k])))
+//@   assigns nothing
+//
+// isDistinct() iff count() = distinct().count()
+//@ func IsDistinct(ctx, input, args) (res, err)
+//@   ensures len(args) != 0 ==> is(err, ErrWrongArity)
+//@   ensures len(args) == 0 ==> err == nil && (collTV(res) == TV_T || collTV(res) == TV_F)
+//@   assigns nothing
+//
+// exclude(d): precisely the items of the input equal to no item of d, order and duplicates
+// preserved. (KNOWN FINDING on the pinned tree: the implementation also appends the items of
+// d that are not in the input - a symmetric difference - and TestExclude pins that.)
+//@ func Exclude(ctx, input, args) (res, err)
+//@   requires ctx != nil
+//@   requires forall k int :: 0 <= k && k < len(args) ==> args[k] != nil
+//@   let K = ctx.ExternalConstants
+//@   let N = ctx.Now
+//@   let d = evalRes(args[0], K, N, input)
+//@   let derr = evalErr(args[0], K, N, input)
+//@   ensures len(input) == 0 ==> err == nil && len(res) == 0
+//@   ensures len(input) > 0 && len(args) != 1 ==> is(err, ErrWrongArity)
+//@   ensures len(input) > 0 && len(args) == 1 && derr != nil ==> err != nil
+//@   ensures len(input) > 0 && len(args) == 1 && derr == nil ==> err == nil && len(res) == exclLen(d, input, len(input))
+//@   ensures len(input) > 0 && len(args) == 1 && derr == nil ==> forall k int :: 0 <= k && k < len(input) && keepE(d, input[k]) ==> res[exclLen(d, input, k)] == input[k]
+//@   loop 1 (i):
+//@     invariant 0 <= i && i <= len(input)
+//@     invariant len(result) == exclLen(d, input, i)
+//@     invariant forall k int :: 0 <= k && k < i && keepE(d, input[k]) ==> exclLen(d, input, k) < len(result) && result[exclLen(d, input, k)] == input[k]
+//@   assigns nothing
+//
+// intersect(d): items of the input (primitives as System values) equal to some item of d,
+// each at most once, never a nil item
+//@ func Intersect(ctx, input, args) (res, err)
+//@   requires ctx != nil && validColl(input)
+//@   requires forall k int :: 0 <= k && k < len(args) ==> args[k] != nil
+//@   let K = ctx.ExternalConstants
+//@   let N = ctx.Now
+//@   let d = evalRes(args[0], K, N, input)
+//@   let derr = evalErr(args[0], K, N, input)
+//@   ensures len(input) == 0 ==> err == nil && len(res) == 0
+//@   ensures len(input) > 0 && len(args) != 1 ==> is(err, ErrWrongArity)
+//@   ensures len(input) > 0 && len(args) == 1 && derr != nil ==> err != nil
+//@   ensures len(input) > 0 && len(args) == 1 && derr == nil ==> err == nil && len(res) <= len(input)
+//@   ensures err == nil ==> forall a int :: 0 <= a && a < len(res) ==> res[a] != nil
+//@   ensures len(input) > 0 && len(args) == 1 && derr == nil ==> forall a int :: 0 <= a && a < len(res) ==> (exists k int :: 0 <= k && k < len(input) && containsS(d, input[k]) && (res[a] == input[k] || (fromOk(input[k]) && res[a] == fromS(input[k]))))
+//@   ensures len(input) > 0 && len(args) == 1 && derr == nil ==> forall k int :: 0 <= k && k < len(input) && containsS(d, input[k]) ==> (exists a int :: 0 <= a && a < len(res) && (res[a] == input[k] || res[a] == fromS(input[k]) || eqItem(res[a], input[k])))
+//@   loop 1 (i):
+//@     invariant 0 <= i && i <= len(input) && len(result) <= i
+//@     invariant forall a int :: 0 <= a && a < len(result) ==> result[a] != nil
+//@     invariant forall a int :: 0 <= a && a < len(result) ==> (exists k int :: 0 <= k && k < i && containsS(d, input[k]) && (result[a] == input[k] || (fromOk(input[k]) && result[a] == fromS(input[k]))))
+//@     invariant forall k int :: 0 <= k && k < i && containsS(d, input[k]) ==> (exists a int :: 0 <= a && a < len(result) && (result[a] == input[k] || result[a] == fromS(input[k]) || eqItem(result[a], input[k])))
+//@   assigns nothing
